@@ -115,6 +115,12 @@ def new_run_for(prop, rng, tier):
     }
     cfg['max_assets'] = 8
     cfg['max_assocs'] = 10
+    if rng.random() < 0.15 and prop in ('C05', 'C06', 'C07'):
+        # tiny universe: few assets, two names, ids 0..2 - short histories are sampled densely
+        cfg['tiny'] = True
+        cfg['max_assets'] = 3
+        cfg['steps'] = rng.randint(4, 14)
+        cfg['p_reuse'] = 0.8
     if tier == 'thorough' and src != 'corelang' and rng.random() < 0.5:
         # deeper bounds, not only more runs
         cfg['steps'] = rng.randint(40, 140)
@@ -596,6 +602,9 @@ class ModelWorld(BaseWorld):
             name = rng.choice(live_names)             # duplicate: renamed or refused
         else:
             name = self._names(rng)
+        if self.cfg.get('tiny'):
+            aid = rng.choice([None, None, 0, 1, 2, -1])
+            name = rng.choice([None, 'a', 'a', 'b'])
         defs = {}
         dnames = sorted(self.L.defenses(t))
         for d in dnames:
